@@ -156,8 +156,7 @@ func checkErrMem(c ErrMemCase, cv *cov) *evid.Violation {
 		return nil // not this property's business (C01/C08)
 	}
 	var pe *thrift.ProtocolException
-	direct, isDirect := err.(*thrift.ProtocolException)
-	if !errors.As(err, &pe) || !isDirect || direct == nil {
+	if !errors.As(err, &pe) || pe == nil {
 		return evid.Failf("%s(type %d, %s): error %q (%T) is not a *ProtocolException", c.Fn, c.T, hx(b), err, err)
 	}
 	okc := false
